@@ -139,6 +139,8 @@ SHAPES = [
     lambda a, b: [a, 3.5, True, b],
     lambda a, b: TextBlock([a, b]),
     lambda a, b: [None, [None, [a]], -1, [b, []]],
+    lambda a, b: [a, TextBlock(), b],
+    lambda a, b: [TextBlock(None), [a, TextBlock([])], {'k': TextBlock('')}, b],
 ]
 
 
@@ -162,8 +164,9 @@ def h_concat(a: str, b: str) -> bool:
     if t4.lines != la + lb or t1.lines != la:
         return False
     t5 = TextBlock(a)
+    t5_before = t5
     t5 += b
-    if t5.lines != la + lb:
+    if t5.lines != la + lb or t5 is not t5_before:        # += extends this very block
         return False
     t6 = TextBlock(a)
     ret = t6.append(t2)
@@ -205,6 +208,8 @@ CHUNK_SHAPES = [
     lambda a: [a, ''],
     lambda a: ['', a],
     lambda a: [[], {}, None, ''],
+    lambda a: [TextBlock(), a],
+    lambda a: [TextBlock(), [TextBlock([])], None],
 ]
 
 
@@ -241,7 +246,7 @@ def h_cond_chunk(k: int, p: str, a: str, e: str, all_or_nothing: bool) -> bool:
 # ---- deep harnesses (int-coded structure over a class alphabet) -----------------------------------
 
 POOL = ['a', '', ' ', 'a\nb', '\r\n', 'x\u2028', '\n\n', ' a ', 'a\rb\n', '\x1c\x85', '\t', 'b\x0c']
-NKINDS = 8
+NKINDS = 10
 
 
 def _leaf(kind: int, code: int, pool_n: int):
@@ -261,6 +266,10 @@ def _leaf(kind: int, code: int, pool_n: int):
         return TextBlock(s)
     if kind == 6:
         return []
+    if kind == 8:
+        return TextBlock()
+    if kind == 9:
+        return [TextBlock(), s, {'e': TextBlock([])}]
     return [[s], None, {'q': []}]
 
 
@@ -340,7 +349,7 @@ SPECS = [
            '0 <= k1 < %d' % NKINDS, '0 <= c1 < {P}', '0 <= k2 < %d' % NKINDS, '0 <= c2 < {P}'],
       quick=dict(P=4, I=2, ct=300, pt=30), thorough=dict(P=12, I=2, ct=1500, pt=60),
       shards=lambda p: [f'k0 == {i}' for i in range(NKINDS)],
-      bounds='<= {I} items, each one of %d kinds (str, None, int, list, dict, TextBlock, [], nested) '
+      bounds='<= {I} items, each one of %d kinds (str, None, int, list, dict, TextBlock, [], nested, empty TextBlock) '
              'with leaves from a {P}-string class alphabet (line-break / blank / text mixes)' % NKINDS),
     H('h_trim_list_deep', 'deep',
       pre=['0 <= n <= {I}'] + [f'0 <= c{i} < {len(TRIM_POOL)}' for i in range(4)],
